@@ -53,6 +53,31 @@ prop('C15',
                      'switches, or a Map that touches keys change the collected pairs.'),
          level_note='trusts the list interpreter (harness/iters/ast.go evalP/evalS)'))
 
+prop('C16',
+     level='exploration',
+     rule=('generated: well-typed linear programs From + 0..14 steps of Join/LiftF/WrapF/Unit/Yield over a universe of 16 element types '
+           '({int, Account, *Account, Void} x slice levels 0..3) and 2 source types, every L1/L2 carrying its step number as payload; the real generic '
+           'combinators are reached through a generated table of ~1000 instantiations (harness/ducts/table_gen.go); oracle: an independent model with an '
+           'explicit stack of open contexts gives the expected tree and its DFS callback trace (kind, depth, Type/TypeA/TypeB as literal strings, payload, Root, '
+           'Deferred, child count); checked with a recording visitor (trace equality, bracket discipline, depth = parent+1) and with a visitor failing at EVERY callback '
+           'index (exactly k+1 callbacks, Apply returns that very error); '
+           'non-trivial = one nested context closed by Unit and another still open, or nesting >= 2; distinct = different canonical program'),
+     assumptions=['each intermediate morphism is used once (the statement\'s proviso): the AST is shared by pointer between a morphism and its derivatives',
+                  'payloads are ints; type universe is finite (16 types)'],
+     parts=[
+         dict(name='enum', engine='E5', pkg='ducts', test='TestC16Enum', kind='plain', quick=dict(shards=4), thorough=dict(shards=16, timeout=2400)),
+         dict(name='rapid', engine='E5', pkg='ducts', test='TestC16',
+              quick=dict(cases=20000, shards=4), thorough=dict(cases=300000, shards=16, timeout=2400)),
+     ],
+     manifest=dict(
+         engine='E5', design_ref='4/C16',
+         technique='property-based testing (rapid): generated well-typed combinator programs vs a stack-of-open-contexts model, failing visitor at every callback position; exhaustive short programs',
+         level_text=('Programs are drawn at run time over a generated dispatch table of the real generic instantiations; an independently written model predicts '
+                     'the whole callback trace, and a failing visitor is placed at every callback position of every program. All programs up to a length bound over a '
+                     '6-type sub-universe are enumerated. This reaches nesting/closing patterns (Unit after Unit, LiftF inside a closed context\'s parent, Yield inside an open context) '
+                     'that the single hand-written test program never visits.'),
+         level_note='trusts the model in harness/ducts/ducts_test.go (written from the statement) and the committed generated table'))
+
 prop('C17',
      level='exploration',
      rule=('generated: law kind (eq/ord on int and string, ContraMap over int and string projections, From wrappers over arbitrary '
